@@ -1,4 +1,5 @@
 import Fabio.Model.C19
+import Fabio.Model.C19Load
 /-!
 C19 — configured upstream time limits are enforced: property theorems.
 
@@ -391,6 +392,117 @@ theorem every_request_of_a_history (rt : Int → Nat → Int → RT) (hrt : Roun
       simp only [serveFull, hcar, hrt.inTime _ us[i].status us[i].delay (Or.inr hd), requestDeadline]
     rw [exchange_status rt tr requestDeadline us[i] (by rw [hs]; exact hst), hs]
 
+/-! ### From what the operator wrote to the transports (`config.Load` → `SetConfig` → `NewTransport`) -/
+
+/-- What `load` returns, option by option. -/
+theorem load_fields (src : Sources) (cfg : Cfg) (h : load src = some cfg) :
+    flagValue parseDuration src "proxy.dialtimeout" Cfg.defaults.dialTimeout = some cfg.dialTimeout ∧
+    flagValue parseDuration src "proxy.responseheadertimeout" Cfg.defaults.responseHeaderTimeout = some cfg.responseHeaderTimeout ∧
+    flagValue parseDuration src "proxy.keepalivetimeout" Cfg.defaults.keepAliveTimeout = some cfg.keepAliveTimeout ∧
+    flagValue parseDuration src "proxy.idleconntimeout" Cfg.defaults.idleConnTimeout = some cfg.idleConnTimeout ∧
+    flagValue parseInt src "proxy.maxconn" Cfg.defaults.maxConn = some cfg.maxConn := by
+  unfold load at h
+  cases h1 : flagValue parseDuration src "proxy.dialtimeout" Cfg.defaults.dialTimeout <;> simp [h1] at h
+  cases h2 : flagValue parseDuration src "proxy.responseheadertimeout" Cfg.defaults.responseHeaderTimeout <;> simp [h2] at h
+  cases h3 : flagValue parseDuration src "proxy.keepalivetimeout" Cfg.defaults.keepAliveTimeout <;> simp [h3] at h
+  cases h4 : flagValue parseDuration src "proxy.idleconntimeout" Cfg.defaults.idleConnTimeout <;> simp [h4] at h
+  cases h5 : flagValue parseInt src "proxy.maxconn" Cfg.defaults.maxConn <;> simp [h5] at h
+  subst h
+  simp
+
+/-- Precedence: a flag given on the command line (its last occurrence) is what counts, whatever the environment
+and the properties file say … -/
+theorem flagValue_cmdline (parse : String → Option Int) (src : Sources) (n v : String) (d : Int)
+    (h : lookupLast src.cmdline n = some v) : flagValue parse src n d = parse v := by
+  simp [flagValue, rawValue, h]
+
+/-- … otherwise the environment with the `FABIO_` prefix, then without it, then the properties file (a text that
+does not parse is stored as zero there) … -/
+theorem flagValue_env (parse : String → Option Int) (src : Sources) (n v : String) (d : Int)
+    (hc : lookupLast src.cmdline n = none) (h : lookupLast src.env (envName "FABIO_" n) = some v) :
+    flagValue parse src n d = some ((parse v).getD 0) := by
+  simp [flagValue, rawValue, hc, h]
+
+theorem flagValue_props (parse : String → Option Int) (src : Sources) (n v : String) (d : Int)
+    (hc : lookupLast src.cmdline n = none) (he : lookupLast src.env (envName "FABIO_" n) = none)
+    (he' : lookupLast src.env (envName "" n) = none) (h : lookupLast src.props n = some v) :
+    flagValue parse src n d = some ((parse v).getD 0) := by
+  simp [flagValue, rawValue, hc, he, he', h]
+
+/-- … and a flag nobody set keeps its default. -/
+theorem flagValue_default (parse : String → Option Int) (src : Sources) (n : String) (d : Int)
+    (h : rawValue src n = none) : flagValue parse src n d = some d := by
+  simp [flagValue, h]
+
+def fiveNames : List String :=
+  ["proxy.dialtimeout", "proxy.responseheadertimeout", "proxy.keepalivetimeout", "proxy.idleconntimeout", "proxy.maxconn"]
+
+/-- The five options depend on nothing but their own five flags: two configurations that agree on them — and
+differ in listeners, listener read/write timeouts, flush intervals, anything else — load the same five values. -/
+theorem load_depends_on_the_five_only (a b : Sources) (h : ∀ n ∈ fiveNames, rawValue a n = rawValue b n) :
+    load a = load b := by
+  have e : ∀ parse n d, n ∈ fiveNames → flagValue parse a n d = flagValue parse b n d := by
+    intro parse n d hn; simp only [flagValue, h n hn]
+  unfold load
+  rw [e _ "proxy.dialtimeout" _ (by decide), e _ "proxy.responseheadertimeout" _ (by decide),
+    e _ "proxy.keepalivetimeout" _ (by decide), e _ "proxy.idleconntimeout" _ (by decide),
+    e _ "proxy.maxconn" _ (by decide)]
+
+/-- The first sentence of the property, end to end: whatever `config.Load` made of command line, environment
+and properties file is what every transport the program ever builds carries (main's order: nothing built before
+the one `SetConfig`, which receives `Load`'s result — regenerated facts). -/
+theorem loaded_limits_reach_every_transport (src : Sources) (cfg : Cfg) (hl : load src = some cfg)
+    (s : Cell) (pre post : List Ev)
+    (hpre : ∀ e ∈ pre, e.builds = false ∧ e.isSet = false) (hpost : ∀ e ∈ post, e.isSet = false) :
+    ∀ t ∈ run .packageVar s (pre ++ Ev.setConfig cfg :: post),
+      some t.dialTimeout = flagValue parseDuration src "proxy.dialtimeout" Cfg.defaults.dialTimeout ∧
+      some t.responseHeaderTimeout = flagValue parseDuration src "proxy.responseheadertimeout" Cfg.defaults.responseHeaderTimeout ∧
+      some t.dialKeepAlive = flagValue parseDuration src "proxy.keepalivetimeout" Cfg.defaults.keepAliveTimeout ∧
+      some t.idleConnTimeout = flagValue parseDuration src "proxy.idleconntimeout" Cfg.defaults.idleConnTimeout ∧
+      some t.maxIdleConnsPerHost = flagValue parseInt src "proxy.maxconn" Cfg.defaults.maxConn := by
+  intro t ht
+  obtain ⟨c1, c2, c3, c4, c5⟩ := all_transports_use_config s cfg pre post hpre hpost t ht
+  obtain ⟨l1, l2, l3, l4, l5⟩ := load_fields src cfg hl
+  rw [l1, l2, l3, l4, l5, c1, c2, c3, c4, c5]
+  exact ⟨rfl, rfl, rfl, rfl, rfl⟩
+
+/-- Both sentences together, as an operator reads them: `-proxy.responseheadertimeout v` on the command line,
+`v` a duration `T > 0` in Go's syntax; then an upstream that sends informational responses and misses `T` gets
+the client a 504 at `T` on every handler path and every kind of transport, and one that answers before `T` is
+served normally — whatever else the configuration holds. -/
+theorem operator_timeout_is_enforced (rt : Int → Nat → Int → RT) (hrt : RoundTripContract rt)
+    (src : Sources) (cfg : Cfg) (hl : load src = some cfg) (v : String) (T : Int)
+    (hv : lookupLast src.cmdline "proxy.responseheadertimeout" = some v) (hp : parseDuration v = some T) (hT : 0 < T)
+    (s : Cell) (o : TargetOpts) (fi gfi : Int) (path : Path) (hws : path ≠ .websocket) (u : Upstream) :
+    ∃ h, handlerFor (newHTTPProxy (setConfig s cfg)) fi gfi (addTarget (setConfig s cfg) o) path = some h ∧
+      (T < u.delay → exchange rt h.transport requestDeadline u =
+          { served := ⟨504, T, true, T⟩, interims := u.interims.filter informational, recorded := 504 }) ∧
+      (u.delay < T → informational u.status = false → exchange rt h.transport requestDeadline u =
+          { served := ⟨u.status, u.delay, true, u.delay + u.body⟩, interims := u.interims.filter informational,
+            recorded := u.status }) := by
+  have hT' : cfg.responseHeaderTimeout = T := by
+    have := (load_fields src cfg hl).2.1
+    rw [flagValue_cmdline _ _ _ _ _ hv, hp] at this
+    exact (Option.some.inj this).symm
+  obtain ⟨h, h1, h2⟩ := every_path_uses_config s cfg o fi gfi path hws
+  refine ⟨h, h1, ?_, ?_⟩
+  · intro hd
+    obtain ⟨h', h1', h2'⟩ := interim_then_timeout_504 rt hrt s cfg o fi gfi path hws u (by omega) (by omega)
+    rw [h1] at h1'; cases h1'; rw [h2', hT']
+  · intro hd hst
+    obtain ⟨h', h1', h2'⟩ := interim_then_in_time_served rt hrt s cfg o fi gfi path hws u hst (Or.inl (by omega))
+    rw [h1] at h1'; cases h1'; exact h2'
+
+/-- What the obligation `load_does_not_rewrite_the_five_options` excludes: a step after the flag parser that
+lowers the response-header timeout to a listener's write timeout makes an upstream that answers within the
+configured limit a 504 (configured 2 s, listener write timeout 300 ms, answer after 700 ms). -/
+theorem lowered_timeout_fails_in_time_upstream :
+    let cfg : Cfg := { Cfg.defaults with responseHeaderTimeout := 2000000000 }
+    let lowered : Cfg := { cfg with responseHeaderTimeout := 300000000 }
+    (exchange roundTrip (newTransport (setConfig Cell.init cfg) none) requestDeadline ⟨[], 200, 700000000, 0⟩).served.status = 200 ∧
+    (exchange roundTrip (newTransport (setConfig Cell.init lowered) none) requestDeadline ⟨[], 200, 700000000, 0⟩).served.status = 504 := by
+  decide
+
 /-! ### Non-vacuity: the hypotheses above are satisfiable on non-trivial values -/
 
 /-- a typical operator configuration: 30 s dial, 100 ms header timeout, 10 s keep-alive, 15 s idle, 10000 conns -/
@@ -434,6 +546,17 @@ example : exchangeWith true roundTrip (newTransport (setConfig Cell.init cfgEx) 
 -- two requests answered at once, then a stalled one, through the same transport
 example : (serveHistory roundTrip (newTransport (setConfig Cell.init cfgEx) none) requestDeadline
     [⟨[], 200, 0, 0⟩, ⟨[], 200, 0, 0⟩, ⟨[], 200, 500000000, 0⟩]).map (·.served.status) = [200, 200, 504] := by decide
+-- a command line, an environment and a properties file: command line over FABIO_ environment over properties
+def srcEx : Sources :=
+  { cmdline := [("proxy.responseheadertimeout", "2s"), ("proxy.addr", ":9999,:9998;wt=300ms"), ("proxy.responseheadertimeout", "1.5s")]
+    env := [("FABIO_PROXY_DIALTIMEOUT", "250ms"), ("PROXY_DIALTIMEOUT", "9s"), ("FABIO_PROXY_RESPONSEHEADERTIMEOUT", "1h")]
+    props := [("proxy.maxconn", "12"), ("proxy.dialtimeout", "3s"), ("proxy.keepalivetimeout", "1m30s")] }
+example : load srcEx = some ⟨250000000, 1500000000, 90000000000, 15000000000, 12⟩ := by decide
+example : parseDuration "1h2m3.004s" = some 3723004000000 ∧ parseDuration "-1.5ms" = some (-1500000) ∧
+    parseDuration "3sec" = none ∧ parseDuration "5" = none ∧ parseDuration "9223372036854775808ns" = none := by decide
+example : splitArgs ["-proxy.dialtimeout", "-5s", "--proxy.maxconn=7"] = some [("proxy.dialtimeout", "-5s"), ("proxy.maxconn", "7")] := by decide
+example : load { cmdline := [], env := [("FABIO_PROXY_DIALTIMEOUT", "3sec")], props := [] } = some { Cfg.defaults with dialTimeout := 0 } := by decide
+example : load { cmdline := [("proxy.dialtimeout", "3sec")], env := [], props := [] } = none := by decide
 example : errorStatus .netTimeout = 504 ∧ errorStatus .netOther = 502 ∧ errorStatus .canceled = 499 := by decide
 
 end Fabio.Props.C19
